@@ -1,5 +1,6 @@
 import RedoModel.Lemmas.Deps
 import RedoModel.Lemmas.DepsOwned
+import RedoModel.Props.C11b
 /-!
 # C11 — redo never overwrites or deletes files it did not produce
 Property theorems only.  Model: `RedoModel/Deps.lean`.
